@@ -109,10 +109,17 @@ def install_visit_contract(c, dkey, frag=None):
     return vis
 
 
-def make_self(c, dkey):
+def make_self(c, dkey, symbolic_alias=True):
     E, U, PV = c["E"], c["U"], c["PV"]
     cls, _ = VISITORS[dkey]
     alias = z3.Const("alias", PV)
+
+    def mk_none(path):
+        # the alias matters only where identifiers are rendered (visit_Identifier is checked with a symbolic alias)
+        path.assume(U.is_tag("NoneV", alias))
+        return Obj(cls, {"table_alias": None})
+    if not symbolic_alias:
+        return mk_none, alias
 
     def mk(path):
         # table alias: None or a string without a double quote (it comes from the application: alias_ok)
@@ -442,9 +449,12 @@ def reader_obligations(c, dkey, path, node, value, alias_term, spec_tree=None, p
         for side, key in (("L", "lvlL"), ("R", "lvlR")):
             cst, refs = rd[key]
             want = lmin(c, dialect, node, side)
+            # nothing binds tighter than a prefix sign: an exposed unary minus satisfies any promise
+            want = z3.If(want > 10, z3.IntVal(10), want)
             goal = z3.IntVal(cst) >= want
             for hole, s2 in refs:
-                goal = z3.And(goal, lmin(c, dialect, hole.payload, s2) >= want)
+                lv = lmin(c, dialect, hole.payload, s2)
+                goal = z3.And(goal, z3.If(lv > 10, z3.IntVal(10), lv) >= want)
             out.append(("post.lvl", goal, {"template": text[:200], "side": side, "exposes": cst}))
     # data holes
     for hole, ctx, _ in rd["data"]:
